@@ -11,6 +11,7 @@ use star_frame::account_set::modifiers::seeded::{CurrentProgram, SeedProgram};
 use star_frame::account_set::{AccountSetDecode, AccountSetValidate};
 use star_frame::client::FindProgramAddress;
 use star_frame::prelude::*;
+use star_frame::unsize::init::DefaultInit;
 use std::marker::PhantomData;
 use vh::*;
 
@@ -22,6 +23,14 @@ const PROG_ID: Pubkey = Pubkey::new_from_array([
 #[derive(StarFrameProgram)]
 #[program(instruction_set = (), id = PROG_ID, no_entrypoint, skip_idl)]
 pub struct HProg;
+
+/// a program account of HProg, for candidates validated through `Init<Seeded<Account<V10>, S, P>>` (mode 2)
+#[zero_copy(pod)]
+#[derive(Default, Debug, Eq, PartialEq, ProgramAccount)]
+#[program_account(skip_idl, program = HProg, discriminant = [0x10, 1, 2, 3, 4, 5, 6, 7])]
+pub struct V10 {
+    pub a: u64,
+}
 
 // ---- case -> field values --------------------------------------------------------------------
 trait FromCase: Sized {
@@ -286,6 +295,65 @@ where
     }
 }
 
+/// mode 2: the same explicit-bump decision, reached through `Init<Seeded<Account<V10>, S, P>>` validated with
+/// `(CreateIfNeeded(..), SeedsWithBump { seeds, bump })` on an account that ALREADY EXISTS (program-owned, initialised):
+/// nothing is created, no CPI is signed, so the framework itself has to compare the key with the derived address
+/// (`Seeded` can only be initialised with `CurrentProgram` as the seed program: seeded.rs 308)
+fn candidate_init<S>(s: &S, key: [u8; 32], bump: u8, ctx_pid: &'static Pubkey, spid: &Pubkey, out: &mut Vec<i128>)
+where
+    S: Fam,
+{
+    type P = CurrentProgram;
+    let mut data = vec![0x10u8, 1, 2, 3, 4, 5, 6, 7];
+    data.extend([9u8; 8]);
+    let na = NativeAccount::new(key, PROG_ID.to_bytes(), 1_000_000, &data, false, true, false);
+    let fna = NativeAccount::new([0xF1; 32], [0; 32], 10_000_000_000, &[], true, true, false);
+    let (info, finfo) = (na.info(), fna.info());
+    let r = guarded(|| -> Result<Vec<i128>> {
+        let mut ctx = Context::new(ctx_pid);
+        let funder = <Mut<Signer>>::try_from_account(&finfo, &mut ctx)?;
+        let mut accs: &[AccountInfo] = std::slice::from_ref(&info);
+        let mut set = <Init<Seeded<Account<V10>, S, P>> as AccountSetDecode<'_, ()>>::decode_accounts(&mut accs, (), &mut ctx)?;
+        AccountSetValidate::validate_accounts(
+            &mut set,
+            (CreateIfNeeded((|| DefaultInit, &funder)), SeedsWithBump { seeds: s.clone(), bump }),
+            &mut ctx,
+        )?;
+        let mut o = vec![0];
+        let rec = set.access_seeds().bump;
+        o.push(rec as i128);
+        match guarded(|| owned(set.access_seeds().seeds_with_bump())) {
+            Ok(ss) => {
+                o.push(0);
+                seedvec(&ss, &mut o);
+                out_addr(create(&ss, spid), &mut o);
+            }
+            Err(()) => o.push(2),
+        }
+        let inner: &mut Seeded<Account<V10>, S, P> = &mut set;
+        match guarded(|| inner.validate_accounts(SeedsWithBump { seeds: s.clone(), bump: rec.wrapping_add(1) }, &mut ctx)) {
+            Ok(Ok(())) => {
+                o.push(0);
+                o.push(inner.access_seeds().bump as i128);
+            }
+            Ok(Err(e)) => {
+                o.push(1);
+                o.push(err_code(e) as i128);
+            }
+            Err(()) => o.push(2),
+        }
+        Ok(o)
+    });
+    match r {
+        Ok(Ok(o)) => out.extend(o),
+        Ok(Err(e)) => {
+            out.push(1);
+            out.push(err_code(e) as i128);
+        }
+        Err(()) => out.push(2),
+    }
+}
+
 fn run<S: Fam>(c: &[i128]) -> Vec<i128> {
     let mut cur = Cur::new(c);
     let bad = vec![-1];
@@ -337,7 +405,9 @@ fn run<S: Fam>(c: &[i128]) -> Vec<i128> {
     for _ in 0..nc {
         let Some(key) = key32(&mut cur) else { return bad };
         let (Some(mode), Some(bump)) = (cur.next(), cur.next()) else { return bad };
-        if pmode != 0 {
+        if mode == 2 && pmode == 0 {
+            candidate_init::<S>(&s, key, bump as u8, ctx_pid, &spid, &mut out);
+        } else if pmode != 0 {
             candidate::<S, HProg, ViaAccess>(&s, key, mode, bump as u8, ctx_pid, &spid, cls, &mut out);
         } else {
             candidate::<S, CurrentProgram, ViaSignedAccount>(&s, key, mode, bump as u8, ctx_pid, &spid, cls, &mut out);
